@@ -67,7 +67,7 @@ func init() {
 	register(&PropSpec{
 		ID:    "C10",
 		Level: "other",
-		Explanation: "Decides that the table encoder (Go code in internal/codegen) and the decoder (runtime code inside the templates) agree on the format, and that row compression is structurally lossless: lexer row layout and strides (FMT-1), ranges sorted by the comparator the binary search assumes (FMT-2), action codes equal on both sides and equal to the reference driver's result codes (FMT-3), non-greedy flag bit (FMT-4), row dedup key / index rebase / row prologue shared by all readers (FMT-5), parser action/goto encoding and index=position of productions, rules and states (FMT-6). " +
+		Explanation: "Decides that the table encoder (Go code in internal/codegen) and the decoder (runtime code inside the templates) agree on the format, and that row compression is structurally lossless: lexer row layout and strides (FMT-1), ranges sorted by the comparator the binary search assumes (FMT-2), action codes equal on both sides and equal to the reference driver's result codes (FMT-3), non-greedy flag bit (FMT-4), row dedup key / index rebase / row prologue shared by all readers (FMT-5), parser action/goto encoding and index=position of productions, rules and states (FMT-6); of the state-merging step its structural obligations: groups start split by Accept, refinement runs until stable, transition and accepting-rule differences split a group (LEX-6), and the new states are wired by group number before the start group is moved to index 0 and IDs are renumbered (LEX-9). " +
 			"NOT decided: that subset construction, partition refinement and range merging preserve the language of a mode (behavioural; needs exploring automata), nor disjointness of emitted ranges.",
 		Run: func(c *Ctx) {
 			ruleFMT1(c)
@@ -76,8 +76,10 @@ func init() {
 			ruleFMT4(c)
 			ruleFMT5(c)
 			ruleFMT6(c)
+			ruleLEX6(c)
 			ruleLEX7(c)
 			ruleLEX8(c)
+			ruleLEX9(c)
 		},
 		Thorough: func(c *Ctx) {
 			onInstances(c, func(c *Ctx) {
@@ -163,7 +165,7 @@ func init() {
 	register(&PropSpec{
 		ID:    "C02",
 		Level: "other",
-		Explanation: "The automaton algebra (subset construction, refinement, range splitting) computes on run-time values and is NOT decided. Decided are the construction shapes and the selection mechanisms, each a necessary condition: Thompson shape of every NFACons (LEX-1), earliest declared rule wins in pickAction (LEX-2), the runtime acts only when the transition search is exhausted (LEX-3), universe constants (LEX-4), the Build/NFAToDFA pipeline skeleton (LEX-5), accepting states of different rules are kept apart by optimize (LEX-6), plus the table format agreement FMT-1..3.",
+		Explanation: "The automaton algebra (subset construction, refinement, range splitting) computes on run-time values and is NOT decided. Decided are the construction shapes and the selection mechanisms, each a necessary condition: Thompson shape of every NFACons (LEX-1), earliest declared rule wins in pickAction (LEX-2), the runtime acts only when the transition search is exhausted (LEX-3), universe constants (LEX-4), the Build/NFAToDFA pipeline skeleton (LEX-5), accepting states of different rules are kept apart by optimize (LEX-6) and its new states are wired before they are permuted and renumbered (LEX-9), plus the table format agreement FMT-1..3.",
 		Run: func(c *Ctx) {
 			ruleLEX1(c)
 			ruleLEX2(c)
@@ -171,6 +173,7 @@ func init() {
 			ruleLEX4(c)
 			ruleLEX5(c)
 			ruleLEX6(c)
+			ruleLEX9(c)
 			ruleLEX7(c)
 			ruleLEX8(c)
 			ruleFMT1(c)
@@ -254,7 +257,7 @@ func init() {
 	register(&PropSpec{
 		ID:    "C09",
 		Level: "other",
-		Explanation: "Decided on the parser template instances (both variants): lookahead typestate - every store to the lookahead symbol is a Token or an Error, so the unchecked assertions are reached only with the asserted dynamic type, checked per call site of _makeError (REC-1); parse returns true only through the accept branch, _recover succeeds only after installing (ERROR, Error) and queuing the real lookahead and fails only at EOF (REC-2); the Error is built from the offending lookahead before any token is skipped (REC-3); the recovery loops save/restore the stack around each attempt, pop one state per search step, skip lexer errors and consume a token per retry (REC-4). " +
+		Explanation: "Decided on the parser template instances (both variants): lookahead typestate - every store to the lookahead symbol is a Token or an Error, so the unchecked assertions are reached only with the asserted dynamic type, checked per call site of _makeError (REC-1); parse returns true only through the accept branch, _recover succeeds only after installing (ERROR, Error) and queuing the real lookahead and fails only at EOF (REC-2); the Error is built from the offending lookahead before any token is skipped (REC-3); the recovery loops save/restore the stack around each attempt, pop one state per search step, skip lexer errors and consume a token per retry (REC-4); the goto of a simulated reduction starts from the simulated state, or from a stack the same arm keeps in step, never from the untouched parse stack (REC-5). " +
 			"NOT decided: termination of reduce sequences and of the reduce-simulation loop (depends on the tables), correctness of that simulation, 'first token at which the input stops being a viable prefix', and progress ACROSS successive recoveries (see DESIGN.md: concrete non-terminating grammar found by a seeded-change author).",
 		Run: func(c *Ctx) {
 			ruleREC1(c)
@@ -290,7 +293,7 @@ func init() {
 	register(&PropSpec{
 		ID:    "C12",
 		Level: "other",
-		Explanation: "Absence of every panic and hang for all byte strings is out of reach of a static argument. Decided are six families of crash / silent failure that are visible in code shape, each exact: panics of front-end actions whose condition depends on grammar text (CRASH-1), results of functions with an explicit `return nil` dereferenced without a check (CRASH-2), the front end's 'validated by the lexer' beliefs checked against the grammar source and the checked-in lexer tables: token-type switches with panicking defaults, escape letters and digit counts (CRASH-3), closed enum and type switches with panicking defaults (CRASH-4), results crossing the trust boundary (packages.Load, Scope.Lookup) used only under a dominating check (CRASH-5), exit discipline: non-zero exit iff error, success only after all three emitters wrote their files, every failing return preceded by a diagnostic (CRASH-6, EMIT-1), and the binding verdicts whose omission ends in an assert (BIND-2). " +
+		Explanation: "Absence of every panic and hang for all byte strings is out of reach of a static argument. Decided are seven families of crash / silent failure that are visible in code shape, each exact: panics of front-end actions whose condition depends on grammar text (CRASH-1), results of functions with an explicit `return nil` dereferenced without a check (CRASH-2), the front end's 'validated by the lexer' beliefs checked against the grammar source and the checked-in lexer tables: token-type switches with panicking defaults, escape letters and digit counts (CRASH-3), closed enum and type switches with panicking defaults (CRASH-4), results crossing the trust boundary (packages.Load, Scope.Lookup) used only under a dominating check (CRASH-5), exit discipline: non-zero exit iff error, success only after all three emitters wrote their files, every failing return preceded by a diagnostic (CRASH-6, EMIT-1), a value returned together with an error used only where a test made after the call establishes that the error is nil (CRASH-7), and the binding verdicts whose omission ends in an assert (BIND-2). " +
 			"NOT decided: hangs, stack/heap exhaustion, panics inside Jet / go/format / go/packages, index arithmetic in rang3 and on_char_class.",
 		Run: func(c *Ctx) {
 			ruleCRASH1(c)
@@ -299,6 +302,7 @@ func init() {
 			ruleCRASH4(c)
 			ruleCRASH5(c)
 			ruleCRASH6(c)
+			ruleCRASH7(c)
 			ruleEMIT1(c, "CRASH-6")
 			ruleBIND2(c)
 		},
